@@ -2,7 +2,6 @@
    side condition [enum_ok], which is closed by vm_compute for the generated tables. *)
 From V.model Require Import Base CodecStr EnumTab.
 From V.proofs Require Import BaseP CodecStrP.
-Set Default Timeout 60.
 
 Local Open Scope N_scope.
 
